@@ -163,6 +163,9 @@ def make_strategy(script: dict):
             return {'buy': f(self.buy), 'sell': f(self.sell), 'sl': f(self.stop_loss), 'tp': f(self.take_profit)}
 
         def _enter_draw(self):
+            ae = self.s.get('abs_exits')
+            if ae and not (ae[0] * 1.002 < self.price < ae[1] * 0.998):
+                return 2.0
             return _u(self.s['seed'], self.index, 'enter')
 
         def should_long(self):
@@ -323,7 +326,18 @@ def make_strategy(script: dict):
         def on_open_position(self, order):
             prev = self._enter_hook('on_open_position')
             try:
-                if self.s.get('exits_in', 'open') == 'open':
+                if self.s.get('p_open_liquidate') and self.rnd('oliq') < self.s['p_open_liquidate']:
+                    # close at once with a market order submitted from the fill callback
+                    self.liquidate()
+                elif self.s.get('abs_exits'):
+                    # fixed absolute exit levels and the same size every trade (identical declarations across trades)
+                    lo, hi = self.s['abs_exits']
+                    q = abs(self.position.qty)
+                    if self.is_long:
+                        self.stop_loss, self.take_profit = [(q, lo)], [(q, hi)]
+                    else:
+                        self.stop_loss, self.take_profit = [(q, hi)], [(q, lo)]
+                elif self.s.get('exits_in', 'open') == 'open':
                     sl, tp = self._exit_rows(self._side(), self.position.entry_price, abs(self.position.qty))
                     if sl:
                         self.stop_loss = sl
@@ -352,7 +366,9 @@ def make_strategy(script: dict):
             prev = self._enter_hook('on_reduced_position')
             try:
                 kind = self.s.get('on_reduced')
-                if kind == 'be' and self.s.get('sl'):
+                if kind == 'liquidate':
+                    self.liquidate()
+                elif kind == 'be' and self.s.get('sl'):
                     # move the stop to break-even for the remaining size (only if that is still a stop)
                     be = self._px(self.position.entry_price)
                     ok = (self.is_long and be < self.price * (1 - 0.0005)) or \
